@@ -119,6 +119,13 @@ Viol(a, o, act, a2, o2) ==
    THEN {"ReturnedMatchesCommitted"} ELSE {})
   \cup
   (IF act.res = "panic" THEN {"FailsCleanly"} ELSE {})
+  \cup
+  \* "the call fails rather than return ..." / "the call reports failure rather
+  \*  than return anything else": every GetCFilter call comes back, with a
+  \* result or with an error.  res = "hang": the call had neither reached its
+  \* next step nor returned when a wall-clock bound far above anything the
+  \* scenario can legitimately take expired (the goroutine dump is in the step).
+  (IF act.res = "hang" THEN {"CallReturns"} ELSE {})
 
 EndViol(a, o) == {}
 =============================================================================
